@@ -120,6 +120,9 @@ def _sig_complete(repo, res):
         def signature(self):
             return self.sig
 
+        def integrals(self):
+            return []
+
     class Expr(PyNative):
         def __init__(self, name):
             self.name = name
@@ -284,7 +287,7 @@ INJECTIVE_ARRAY = ("tobytes", "tolist", "tostring", "dumps", "hexdigest", "diges
 
 @rule(
     "SIG-INJECTIVE",
-    ["C13", "C04"],
+    ["C13", "C04", "C14"],
     "no component of the hashed signature is rendered through a lossy conversion: repr/str/f-string of "
     "a NumPy array (8 significant digits, elision beyond 1000 elements) or a %g-style format",
     min_instances=1,
@@ -353,6 +356,56 @@ def sig_injective(repo, res):
                      "and a cached module", m.line(cs.node))
         if s1 != s1b:
             res.fail(key, "the same expression and points give two different signatures", m.line(cs.node))
+    # forms with custom quadrature rules: UFL renders the arrays in the integral metadata with str() (8 significant digits, elision beyond 1000
+    # entries), so form.signature() cannot tell such rules apart - the module name must
+    class Integral(PyNative):
+        def __init__(self, md):
+            self._md = md
+
+        def metadata(self):
+            return dict(self._md)
+
+    class Form(PyNative):
+        def __init__(self, sig_, integrals):
+            self._sig, self._integrals = sig_, integrals
+
+        def signature(self):
+            return self._sig
+
+        def integrals(self):
+            return list(self._integrals)
+
+    def fsig(weights, points):
+        it = install_arrays(Interp(repo, load_classes(repo), primary=NAMING))
+        for nm in ("sha1", "sha256", "md5", "sha512"):
+            it.overrides[f"hashlib.{nm}"] = _PyCall(lambda d=b"", **k: _Sha(d))
+        it.overrides["ufl.Form"] = Form
+        it.overrides["ufl.form.Form"] = Form
+        it.overrides["ffcx.__version__"] = "0.0"
+        it.overrides["ffcx.codegeneration.get_signature"] = _PyCall(lambda: "HDR")
+        md = {"quadrature_rule": "custom", "quadrature_degree": 2, "quadrature_points": points, "quadrature_weights": weights}
+        form = Form("UFL-SIGNATURE-THAT-CANNOT-SEE-THE-ARRAYS", [Integral({"quadrature_degree": 2, "quadrature_rule": "default"}), Integral(md)])
+        return it.call_f(cs, [[form], "t"])
+    P_ = arr((2, 2), lambda i, j: 0.25 + 0.25 * i * (1 - j))
+    fpairs = {
+        "custom quadrature weights differing in the 10th digit": ((arr((2,), lambda i, j: 0.25), P_), (arr((2,), lambda i, j: 0.25 + (1e-9 if i == 0 else 0)), P_)),
+        "custom quadrature points differing in the 10th digit": ((arr((2,), lambda i, j: 0.25), P_), (arr((2,), lambda i, j: 0.25), arr((2, 2), lambda i, j: 0.25 + 0.25 * i * (1 - j) + (1e-9 if (i, j) == (1, 1) else 0)))),
+        "1200-point custom rules differing in the middle": ((arr((1200,), lambda i, j: 1 / 2400), arr((1200, 1), lambda i, j: i / 2048)),
+                                                             (arr((1200,), lambda i, j: (1 + (1 if i == 600 else 0)) / 2400), arr((1200, 1), lambda i, j: i / 2048))),
+    }
+    for label, ((w1, q1), (w2, q2)) in fpairs.items():
+        key = f"{cs.key}:exact-encoding:form:{label}"
+        res.ob(key)
+        try:
+            s1, s2, s1b = fsig(w1, q1), fsig(w2, q2), fsig(w1.copy(), q1.copy())
+        except Raised as e:
+            res.fail(key, f"compute_signature raises ({e.what}) on a form with {label}", m.line(cs.node))
+            continue
+        if s1 == s2:
+            res.fail(key, f"two forms with {label} (and therefore the same UFL signature - UFL prints metadata arrays with str()) get the same module name: with a shared "
+                     "cache the second request is served the kernel built with the first one's quadrature rule", m.line(cs.node), props=("C13", "C14"))
+        if s1 != s1b:
+            res.fail(key, "the same form gives two different signatures", m.line(cs.node))
     key = f"{cs.key}:tag"
     res.ob(key)
     p0 = pairs["different point sets of equal shape"][0]
